@@ -105,12 +105,9 @@ mod v_iface_egress {
         kani::cover!(tx.frames == 1 && pl[0] == 0xaa, "frame captured");
     }
 
-    // @harness props=C10 cfg=KI4 tier=q to=1200 mem=8 unwind=50 opts=nomem,fs300 covers=2 funcs=InterfaceInner::dispatch_ip;Packet::emit_payload;wire::TcpRepr::emit;wire::TcpRepr::buffer_len bounds=Ethernet,_MTU_1500,_tx_checksums_on;_TCP_segment:_SYN_with_MSS+window_scale+SACK-permitted(+timestamp)_or_data_segment_with_timestamp/1_SACK_block,_payload_2_bytes,_all_field_values_symbolic
-    #[kani::proof]
-    pub(crate) fn frame_wf_tcp4() {
+    // TCP segments
+    fn frame_wf_tcp4(syn: bool, ts: bool) {
         env_eth!(iface, tx, mtu);
-        let syn: bool = kani::any();
-        let ts: bool = kani::any();
         let ws: u8 = kani::any();
         kani::assume(ws <= 14);
         let pl: [u8; 2] = kani::any();
@@ -172,8 +169,26 @@ mod v_iface_egress {
         if !syn {
             crate::vassert!(t[doff] == pl[0] && t[doff + 1] == pl[1], "prop:c10_tcp_payload_unmodified");
         }
-        kani::cover!(syn && ts, "SYN with all options");
-        kani::cover!(!syn && ts, "data segment with timestamp and SACK block");
+        kani::cover!(tx.frames == 1 && t[13] & 0x02 == (if syn { 2 } else { 0 }), "segment captured");
+    }
+
+    // (shape-concrete: a symbolic choice of option shape exhausted 8 GB)
+    // @harness props=C10 cfg=KI4 tier=q to=1200 mem=8 unwind=50 opts=nomem,fs300 covers=1 funcs=InterfaceInner::dispatch_ip;Packet::emit_payload;wire::TcpRepr::emit;wire::TcpRepr::buffer_len bounds=Ethernet,_MTU_1500,_tx_checksums_on;_TCP_SYN_with_MSS+window_scale+SACK-permitted+timestamp,_all_field_values_symbolic
+    #[kani::proof]
+    pub(crate) fn frame_wf_tcp4_syn() {
+        frame_wf_tcp4(true, true);
+    }
+
+    // @harness props=C10 cfg=KI4 tier=q to=1200 mem=8 unwind=50 opts=nomem,fs300 covers=1 funcs=InterfaceInner::dispatch_ip;Packet::emit_payload;wire::TcpRepr::emit;wire::TcpRepr::buffer_len bounds=Ethernet,_MTU_1500,_tx_checksums_on;_TCP_data_segment_with_timestamp_and_1_SACK_block,_payload_2_bytes,_all_field_values_symbolic
+    #[kani::proof]
+    pub(crate) fn frame_wf_tcp4_data() {
+        frame_wf_tcp4(false, true);
+    }
+
+    // @harness props=C10 cfg=KI4 tier=t to=1200 mem=8 unwind=50 opts=nomem,fs300 covers=1 funcs=InterfaceInner::dispatch_ip;wire::TcpRepr::emit bounds=as_frame_wf_tcp4_syn_without_timestamp
+    #[kani::proof]
+    pub(crate) fn frame_wf_tcp4_syn_nots() {
+        frame_wf_tcp4(true, false);
     }
 
     // @harness props=C10,C03 cfg=KI4 tier=q to=900 mem=8 unwind=50 opts=nomem,fs300 covers=1 funcs=InterfaceInner::dispatch_ip;Packet::emit_payload;wire::Icmpv4Repr::emit bounds=Ethernet,_MTU_1500,_tx_checksums_on;_ICMPv4_echo_reply_with_any_ident/seq_and_4_data_bytes
@@ -198,12 +213,21 @@ mod v_iface_egress {
     }
 
     // ARP replies and requests: fixed fields, legal sender
-    // @harness props=C10,C16 cfg=KI4 tier=q to=900 mem=8 unwind=50 opts=nomem,fs300 covers=2 funcs=InterfaceInner::process_arp;InterfaceInner::dispatch;InterfaceInner::dispatch_ethernet;wire::ArpRepr::emit bounds=Ethernet;_arbitrary_28-byte_ARP_packet_in_an_Ethernet_frame_for_us;_reply_captured
+    // @harness props=C10,C16 cfg=KI4 tier=q to=900 mem=8 unwind=50 opts=nomem,fs300 covers=2 funcs=InterfaceInner::process_arp;InterfaceInner::dispatch;InterfaceInner::dispatch_ethernet;wire::ArpRepr::emit bounds=Ethernet;_ARP_packet_with_symbolic_operation,_sender_MAC,_last_octet_of_sender_and_target_IP;_reply_captured
     #[kani::proof]
     pub(crate) fn frame_wf_arp_reply() {
         env_eth!(iface, tx, mtu);
         let mut fr = [0u8; 42];
-        let arp: [u8; 28] = kani::any();
+        // hardware/protocol type and sizes fixed (other values are rejected by ArpRepr::parse: C07's subject);
+        // operation, sender MAC, last octet of sender and target IP symbolic (28 free bytes exhausted 8 GB)
+        let mut arp: [u8; 28] = [0, 1, 8, 0, 6, 4, 0, 0, 0, 0, 0, 0, 0, 0, 192, 168, 1, 0, 0, 0, 0, 0, 0, 0, 192, 168, 1, 0];
+        arp[6] = kani::any();
+        arp[7] = kani::any();
+        let smac: [u8; 6] = kani::any();
+        let mut i = 0;
+        while i < 6 { arp[8 + i] = smac[i]; i += 1; }
+        arp[17] = kani::any();
+        arp[27] = kani::any();
         let mut i = 0;
         while i < 6 { fr[i] = OWN_MAC[i]; fr[6 + i] = PEER_MAC[i]; i += 1; }
         fr[12] = 0x08;
@@ -236,9 +260,8 @@ mod v_iface_egress {
     #[kani::proof]
     pub(crate) fn udp_egress_exactly_once() {
         let mtu = 1500usize;
-        let mut dev = CapDev::<N>::new(Medium::Ethernet, mtu + 14, ChecksumCapabilities::ignored());
-        let now: i64 = kani::any();
-        kani::assume(now >= 0 && now < (1i64 << 40));
+        let mut dev = crate::verif_dev::gdev::GDev { medium: Medium::Ethernet, mtu: mtu + 14, checksum: ChecksumCapabilities::ignored(), tx_ok: true };
+        let now: i64 = 1000;
         let mut iface = Interface::new(Config::new(HardwareAddress::Ethernet(EthernetAddress(OWN_MAC))), &mut dev, Instant::from_millis(now));
         iface.update_ip_addrs(|a| {
             a.push(IpCidr::new(IpAddress::Ipv4(OWN), 24)).unwrap();
@@ -263,30 +286,30 @@ mod v_iface_egress {
         let accepted = dev.tx_ok;
         let _ = iface.socket_egress(&mut dev, &mut sockets);
         if accepted {
-            crate::vassert!(dev.tx.frames == 1, "prop:c09_datagram_handed_to_device_exactly_once");
+            crate::vassert!(crate::verif_dev::gdev::captured().frames == 1, "prop:c09_datagram_handed_to_device_exactly_once");
             crate::vassert!(sockets.get::<udp::Socket>(uh).send_queue() == 0, "prop:c09_transmitted_datagram_leaves_queue");
-            let f = &dev.tx.buf0;
-            crate::vassert!(dev.tx.len0 == 14 + 20 + 8 + 4, "prop:c09_frame_carries_whole_datagram");
+            let f = &crate::verif_dev::gdev::captured().buf0;
+            crate::vassert!(crate::verif_dev::gdev::captured().len0 == 14 + 20 + 8 + 4, "prop:c09_frame_carries_whole_datagram");
             crate::vassert!(f[0..6] == PEER_MAC, "prop:c16_frame_sent_to_learned_hardware_address");
             crate::vassert!(f[26..30] == OWN.octets() && f[30..34] == PEER.octets(), "prop:c10_source_is_own_unicast_address");
             crate::vassert!(get16(f, 34) == lport && get16(f, 36) == dport, "prop:c09_addressing_preserved");
             crate::vassert!(f[42] == pl[0] && f[43] == pl[1] && f[44] == pl[2] && f[45] == pl[3], "prop:c09_payload_unmodified");
         } else {
-            crate::vassert!(dev.tx.frames == 0, "prop:c09_nothing_sent_when_device_refuses");
-            crate::vassert!(sockets.get::<udp::Socket>(uh).send_queue() == 1, "prop:c09_backpressure_keeps_datagram_queued");
+            crate::vassert!(crate::verif_dev::gdev::captured().frames == 0, "prop:c09_nothing_sent_when_device_refuses");
+            crate::vassert!(sockets.get::<udp::Socket>(uh).send_queue() == 4, "prop:c09_backpressure_keeps_datagram_queued");
         }
         // a second pass on an accepting device: still exactly once overall
         dev.tx_ok = true;
         let _ = iface.socket_egress(&mut dev, &mut sockets);
-        crate::vassert!(dev.tx.frames == 1, "prop:c09_datagram_handed_to_device_exactly_once");
+        crate::vassert!(crate::verif_dev::gdev::captured().frames == 1, "prop:c09_datagram_handed_to_device_exactly_once");
         crate::vassert!(sockets.get::<udp::Socket>(uh).send_queue() == 0, "prop:c09_transmitted_datagram_leaves_queue");
         if !accepted {
-            let f = &dev.tx.buf0;
+            let f = &crate::verif_dev::gdev::captured().buf0;
             crate::vassert!(f[42] == pl[0] && f[43] == pl[1] && f[44] == pl[2] && f[45] == pl[3], "prop:c09_payload_unmodified");
         }
         kani::cover!(accepted, "sent in the first pass");
         kani::cover!(!accepted, "deferred by back-pressure, sent in the second pass");
-        kani::cover!(dev.tx.frames == 1 && pl[3] == 7, "frame captured");
+        kani::cover!(crate::verif_dev::gdev::captured().frames == 1 && pl[3] == 7, "frame captured");
     }
 
     // @harness props=C10 kind=mustfail cfg=KI4 tier=q to=900 mem=8 unwind=50 opts=nomem,fs300
